@@ -18,6 +18,7 @@ type fieldRef struct {
 }
 
 type oblig struct {
+	second string // thorough tier: the second solver that also discharged it
 	results   []Val             // values returned on this path (ensures obligations)
 	postHeaps map[string]string // heaps at the return (ensures obligations)
 	firstRes string // result of the first pass when a rescue pass was needed
